@@ -33,7 +33,85 @@ BUDGET = {"quick": 240, "thorough": 2700}
 RENDER_ONLY = {"geom_rgba", "mat_texrepeat", "mat_emission", "mat_specular", "mat_shininess", "mat_rgba", "light_attenuation", "light_cutoff", "light_exponent", "light_ambient", "light_diffuse", "light_specular", "cam_fovy", "cam_intrinsic", "geom_aabb"}
 ADDITIVE = {"gravity", "wind", "magnetic"}
 
+SINK_XML = """
+<mujoco>
+  <option timestep="0.00390625" density="50" viscosity="0.02" wind="0.5 0.2 0" magnetic="0.2 -0.3 0.5" cone="elliptic" impratio="2"/>
+  <compiler angle="radian"/>
+  <default><geom solmix="1.5" friction="0.9 0.02 0.002"/></default>
+  <worldbody>
+    <geom name="floor" type="plane" size="0 0 1" margin="0.01" gap="0.002"/>
+    <site name="w0" pos="0 0.6 1.2"/>
+    <light name="l0" mode="trackcom" target="torso" pos="0 0 3" dir="0 0 -1"/>
+    <camera name="c0" mode="targetbody" target="arm2" pos="1 -1 1"/>
+    <body name="torso" pos="0 0 0.32" gravcomp="0.3">
+      <freejoint name="root"/>
+      <geom name="gt" type="sphere" size="0.12" margin="0.012" gap="0.003" priority="1" solref="0.03 0.9" solimp="0.9 0.96 0.002 0.5 2" adhesion="1"/>
+      <geom name="gt2" type="capsule" size="0.05 0.15" pos="0.1 0 -0.12" euler="0 1.2 0" margin="0.008"/>
+      <site name="st" pos="0 0 0.15"/>
+      <camera name="c1" mode="trackcom" pos="0.3 0 0.5"/>
+      <light name="l1" mode="track" pos="0 0.3 0.6" dir="0 0 -1"/>
+      <body name="arm1" pos="0.15 0 0.05">
+        <joint name="j1" type="hinge" axis="0 1 0" range="-0.4 0.5" limited="true" margin="0.05" stiffness="4" springref="0.1" damping="0.3" armature="0.02" frictionloss="0.1" actuatorfrcrange="-3 3" actuatorfrclimited="true"/>
+        <geom name="ga1" type="capsule" size="0.03" fromto="0 0 0 0.25 0 0" margin="0.006"/>
+        <site name="s1" pos="0.12 0 0.04"/>
+        <body name="arm2" pos="0.25 0 0">
+          <joint name="j2" type="hinge" axis="0 0 1" range="-0.6 0.6" limited="true" damping="0.2" armature="0.01" frictionloss="0.05"/>
+          <joint name="j3" type="slide" axis="1 0 0" range="-0.05 0.08" limited="true" stiffness="30" damping="0.5"/>
+          <geom name="ga2" type="sphere" size="0.05" pos="0.15 0 0" margin="0.01"/>
+          <geom name="gwrap" type="sphere" size="0.04" pos="0.07 0.05 0" contype="0" conaffinity="0"/>
+          <site name="s2" pos="0.15 0 0.06"/>
+          <site name="s2b" pos="0.02 0.12 0"/>
+        </body>
+      </body>
+      <body name="leg" pos="-0.1 0 -0.08">
+        <joint name="j4" type="ball" range="0 0.7" limited="true" damping="0.1" stiffness="2" armature="0.005"/>
+        <geom name="gl" type="capsule" size="0.04" fromto="0 0 0 0 0 -0.2" margin="0.01" gap="0.004"/>
+        <site name="s3" pos="0 0 -0.2"/>
+      </body>
+    </body>
+    <body name="ball" pos="0.5 0.3 0.1">
+      <freejoint/>
+      <geom name="gb" type="sphere" size="0.1" margin="0.01" condim="4"/>
+      <site name="sb" pos="0 0 0.1"/>
+    </body>
+  </worldbody>
+  <contact>
+    <pair geom1="gb" geom2="ga2" condim="6" friction="0.7 0.6 0.01 0.002 0.003" margin="0.02" gap="0.005" solref="0.02 1.1" solreffriction="0.03 1" solimp="0.92 0.97 0.003 0.5 2"/>
+    <exclude body1="torso" body2="arm2"/>
+  </contact>
+  <tendon>
+    <fixed name="tf" range="-0.3 0.4" limited="true" margin="0.02" stiffness="5" springlength="0.05 0.1" damping="0.2" frictionloss="0.05" armature="0.01" solreflimit="0.03 1" solimplimit="0.9 0.95 0.002 0.5 2" solreffriction="0.04 1" solimpfriction="0.9 0.95 0.003 0.5 2" actuatorfrcrange="-2 2" actuatorfrclimited="true">
+      <joint joint="j1" coef="1"/><joint joint="j2" coef="-0.7"/>
+    </fixed>
+    <spatial name="ts" range="0.1 0.45" limited="true" stiffness="8" damping="0.3" frictionloss="0.03">
+      <site site="st"/><geom geom="gwrap" sidesite="s2b"/><site site="s2"/>
+    </spatial>
+    <spatial name="ts2" stiffness="3"><site site="w0"/><site site="s3"/></spatial>
+  </tendon>
+  <equality>
+    <tendon name="eqt" tendon1="tf" tendon2="ts" polycoef="0.02 0.8 0.1 0 0" solref="0.03 1" solimp="0.9 0.95 0.002 0.5 2"/>
+    <joint name="eqj" joint1="j3" joint2="j2" polycoef="0.01 0.05 0 0 0"/>
+    <connect name="eqc" body1="ball" body2="arm2" anchor="0 0 0.2" active="true" solref="0.05 1"/>
+    <weld name="eqw" body1="leg" relpose="0 0 0.3 1 0 0 0" active="false"/>
+  </equality>
+  <actuator>
+    <position name="ap" joint="j1" kp="6" kv="0.4" ctrlrange="-0.5 0.5" ctrllimited="true" forcerange="-4 4" forcelimited="true"/>
+    <general name="ag" joint="j2" dyntype="filter" dynprm="0.05" gaintype="affine" gainprm="2 0.3 -0.1" biastype="affine" biasprm="0.1 -1 -0.2" actrange="-1 1" actlimited="true" gear="1.5"/>
+    <intvelocity name="ai" joint="j3" kp="20" actrange="-0.05 0.05"/>
+    <motor name="at" tendon="tf" gear="1.2" forcerange="-1 1" forcelimited="true"/>
+    <general name="ac" cranksite="s2" slidersite="st" cranklength="0.35" gainprm="1.5"/>
+    <adhesion name="aa" body="torso" ctrlrange="0 1" gain="5"/>
+    <muscle name="am" tendon="ts2" lengthrange="0.3 1.6" force="30"/>
+  </actuator>
+  <sensor>
+    <magnetometer site="st"/><framepos objtype="camera" objname="c0"/><subtreecom body="torso"/><touch site="s3"/>
+    <tendonpos tendon="ts"/><actuatorfrc actuator="ap"/><jointlimitfrc joint="j1"/><framezaxis objtype="site" objname="s2"/>
+  </sensor>
+</mujoco>
+"""
+
 SCENES = [
+  {"kind": "xml", "xml": "SINK"},
   {"kind": "repo", "path": "humanoid/humanoid.xml", "opt": {}},
   {"kind": "repo", "path": "constraints.xml", "opt": {}},
   {"kind": "repo", "path": "collision.xml", "opt": {}},
@@ -70,7 +148,7 @@ def cases(tier, seed):
     if name in RENDER_ONLY:
       continue
     for r in range(per):
-      sc = int(rng.integers(len(SCENES)))
+      sc = 0 if rng.random() < 0.6 else int(rng.integers(len(SCENES)))  # prefer the kitchen-sink scene (most fields live)
       out.append({"id": f"{owner}.{name}_{seed}_{r}", "field": [owner, name], "scene": SCENES[sc], "sc": sc, "seed": seed * 1000 + k, "nworld": 4, "b": (4, 2, 3, 1)[(k + r) % 4], "via": ("assign", "put_model")[(k + r) % 2], "weight": 1})
       k += 1
   if tier == "quick":
@@ -131,7 +209,10 @@ def run_case(case):
   mjm = None
   for k in range(len(SCENES)):
     spec = SCENES[(case["sc"] + k) % len(SCENES)]
-    label, cand, feats = scenes.scene(spec)
+    if spec["kind"] == "xml":
+      label, cand, feats = "sink", mujoco.MjModel.from_xml_string(SINK_XML), ["xml:kitchen-sink"]
+    else:
+      label, cand, feats = scenes.scene(spec)
     if cand is None:
       continue
     try:
